@@ -16,6 +16,7 @@ from ..evidence import Run
 TARGETS = [
     b"/", b"/a/b", b"/a%20b", b"/a%2Fb", b"/%zz", b"/%", b"/%4", b"/a?x=1&y=%20", b"/a?", b"/a#f", b"/a#f?q", b"/a?q#f", b"//a/b", b"///a",
     b"http://h/p?q=1", b"https://h:8/p%41", b"http://h/", b"*", b"/p", b"/p/", b"/p/q/r", b"/pq", b"/p/q", b"/P", b"/p%2Fq", b"/%70", b"/\xe9", b"/a;b=c",
+    b"//a?b?c", b"//a#f#g", b"//a?b#c?d#e", b"/a?b?c", b"/a?b=1#f#g", b"/a#f#g", b"/a??", b"/a?#", b"/?", b"/a%3Fb?c", b"/a%23b#c",
 ]
 HEADER_SETS = [
     [],
